@@ -2,7 +2,7 @@
    finite generated table). *)
 From Coq Require Import List String ZArith NArith Bool.
 Import ListNotations.
-From VF Require Import C16.Model C16.Proofs C16.ProofsF C16.ProofsA C16.ProofsB1 C16.ProofsB2 C16.ProofsB3.
+From VF Require Import C16.Model C16.Proofs C16.ProofsF C16.ProofsA C16.ProofsB1 C16.ProofsB2 C16.ProofsB3 C16.ProofsB4.
 Local Open Scope string_scope.
 Local Open Scope list_scope.
 
@@ -174,6 +174,78 @@ Example vc_reparse_nonvacuous :
             ("id", JStr ""); ("jwt", JStr "abc"); ("evidence", JNull); ("custom", JObj [("a", JArr [JNum 1%Z; JNull])])] in
   vc_guard d = true /\ option_map v_id (parse_vc Fixed (JObj d)) = Some "".
 Proof. vm_compute. split; reflexivity. Qed.
+
+(* ---- JWT claims (newJWTCredClaims / refineFromJWTClaims) ----
+   secs: Unix seconds of a date string, fmt: the UTC RFC 3339 spelling of Unix seconds (Go's time package; handed
+   over by the harness for the dates that occur).  canonical_dates: the credential's dates are spelled the way fmt
+   spells them (UTC, whole seconds) — the guard excludes exactly the known finding jwt:subsecond-date-truncated
+   (and a mere re-spelling of the offset). *)
+Theorem jwt_registered_claims : forall secs minimize v c,
+  jwt_claims secs minimize v = Some c ->
+  j_iss c = id_of (v_issuer v) /\ j_jti c = v_id v /\ subject_id (v_subject v) = Some (j_sub c) /\
+  j_nbf c = option_map secs (v_issued v) /\ j_iat c = option_map secs (v_issued v) /\ j_exp c = option_map secs (v_expired v).
+Proof. exact jwt_registered. Qed.
+Print Assumptions jwt_registered_claims.
+
+(* non-minimised form: the vc claim IS the serialised credential and decoding changes nothing *)
+Theorem jwt_claims_agree : forall secs fmt v c,
+  canonical_dates secs fmt v -> issuer_wf v ->
+  jwt_claims secs false v = Some c ->
+  JObj (j_vc c) = marshal_vc Fixed v /\ refine fmt c = j_vc c.
+Proof. exact jwt_full_agree. Qed.
+Print Assumptions jwt_claims_agree.
+
+(* minimised form: id, issuer id and dates travel in jti / iss / nbf / exp only; the credential rebuilt from the
+   claims has, member by member, the values of the serialised credential *)
+Theorem jwt_claims_agree_minimised : forall secs fmt v c,
+  canonical_dates secs fmt v ->
+  jwt_claims secs true v = Some c ->
+  forall k, k <> "issuer" -> lookup (refine fmt c) k = lookup (mobj v) k.
+Proof. exact jwt_min_agree. Qed.
+Print Assumptions jwt_claims_agree_minimised.
+
+(* ... and the issuer member is equal, or (issuer objects) equal as maps *)
+Theorem jwt_claims_agree_minimised_issuer : forall secs fmt v c,
+  issuer_wf v -> lookup (v_cf v) "issuer" = None ->
+  jwt_claims secs true v = Some c ->
+  match lookup (refine fmt c) "issuer", lookup (mobj v) "issuer" with
+  | Some (JObj a), Some (JObj b) => forall k', lookup a k' = lookup b k'
+  | x, y => x = y
+  end.
+Proof. exact jwt_min_issuer. Qed.
+Print Assumptions jwt_claims_agree_minimised_issuer.
+
+(* without canonical dates the statement fails: a fraction of a second does not survive (known finding) *)
+Theorem jwt_claims_agree_subsecond_refuted :
+  let secs := fun s : string => 1893456000%Z in
+  let fmt := fun z : Z => "2030-01-01T00:00:00Z" in
+  let d := JObj [("@context", JArr [JStr "c"]); ("type", JStr "T"); ("credentialSubject", JStr "did:s");
+                 ("issuer", JStr "did:i"); ("issuanceDate", JStr "2030-01-01T00:00:00.5Z")] in
+  match parse_vc Fixed d with
+  | Some v => match jwt_claims secs true v with
+              | Some c => lookup (refine fmt c) "issuanceDate" = Some (JStr "2030-01-01T00:00:00Z") /\
+                          lookup (mobj v) "issuanceDate" = Some (JStr "2030-01-01T00:00:00.5Z")
+              | None => False
+              end
+  | None => False
+  end.
+Proof. vm_compute. split; reflexivity. Qed.
+Print Assumptions jwt_claims_agree_subsecond_refuted.
+
+Example jwt_claims_nonvacuous :
+  let secs := fun s : string => 1577836800%Z in
+  let fmt := fun z : Z => "2020-01-01T00:00:00Z" in
+  let d := JObj [("@context", JArr [JStr "c"]); ("type", JStr "T"); ("id", JStr "urn:1"); ("credentialSubject", JObj [("id", JStr "did:s"); ("a", JNum 1%Z)]);
+                 ("issuer", JObj [("id", JStr "did:i"); ("name", JStr "n")]); ("issuanceDate", JStr "2020-01-01T00:00:00Z")] in
+  match parse_vc Fixed d with
+  | Some v => match jwt_claims secs true v with
+              | Some c => j_iss c = "did:i" /\ j_jti c = "urn:1" /\ j_sub c = "did:s" /\ lookup (j_vc c) "id" = None /\
+                          lookup (refine fmt c) "id" = Some (JStr "urn:1")
+              | None => False
+              end
+  | None => False
+  end.
+Proof. vm_compute. repeat split. Qed.
 
 (* ---- key fingerprints (multibase/base58 layer outside: sampled on btcutil) ----
    for every code of the generated multicodec table except G1G2 and every key byte string:
